@@ -21,6 +21,20 @@ func (u *URL) formatLocal() string {
 	return u.Path
 }
 
+// pathResemblesPortSpecification returns whether or not an SCP-style SSH URL
+// path begins with a (potentially empty) digit sequence followed by a colon,
+// which the SCP-style SSH URL parser would treat as a port specification.
+func pathResemblesPortSpecification(path string) bool {
+	for _, r := range path {
+		if r == ':' {
+			return true
+		} else if r < '0' || r > '9' {
+			return false
+		}
+	}
+	return false
+}
+
 // formatSSH formats an SSH URL into an SCP-style URL.
 func (u *URL) formatSSH() string {
 	// Create the base result.
@@ -31,8 +45,11 @@ func (u *URL) formatSSH() string {
 		result = fmt.Sprintf("%s@%s", u.User, result)
 	}
 
-	// Add port if present.
-	if u.Port != 0 {
+	// Add port if present. A zero port is normally omitted, but if the path
+	// itself begins with something that would be parsed as a port specification
+	// (a potentially empty digit sequence followed by a colon), then the zero
+	// port has to be written explicitly for the result to be reparsable.
+	if u.Port != 0 || pathResemblesPortSpecification(u.Path) {
 		result = fmt.Sprintf("%s:%d", result, u.Port)
 	}
 
